@@ -33,7 +33,7 @@ HAND = [
     # symmetric molecules: every tie-break of the writer / ring search is exercised
     'c1ccccc1', 'C1CCCCC1', 'C12C3C4C1C5C2C3C45', 'C1C2CC3CC1CC(C2)C3', 'C1CC2CCC1CC2', 'c1ccc2ccccc2c1', 'C1CC11CC1',
     'c1cc2ccc3cccc4ccc(c1)c2c34', 'C1=CC=CC=C1', 'CC(C)(C)C(C)(C)C', 'C1CC1C1CCCCC1', 'C1CC1C1CC1', 'C1CCC1C1CCC1',
-    'OC1CCC(O)CC1', 'C(C)(C)(C)C', 'CCCCCCCC', 'C1CC2CC1CC2', 'C12CC1C2',
+    'OC1CCC(O)CC1', 'C(C)(C)(C)C', 'CCCCCCCC', 'C1CC2CC1CC2', 'C12CC1C2', 'C1CC1CC',
     # components, charges, radicals, isotopes, metals
     '[Na+].[Cl-]', '[Na+].[Na+].[O-]S(=O)(=O)[O-]', 'CC(=O)[O-].[K+]', 'O.O.O', 'C[N+](C)(C)C.[Br-]', '[CH3]', 'C[CH2]', '[13CH4]',
     '[2H]O[2H]', 'C[Fe](C)(C)(C)(C)C', '[Cu+2].[O-]C(=O)C.[O-]C(=O)C', 'Cl[Pt](Cl)(N)N', '[O-][N+](=O)c1ccccc1', 'C[S+](C)[O-]',
@@ -172,9 +172,10 @@ def observe_reads(m, env, order='forward'):
     # the same with the value lists normalised: what remains must be seed free
     add('morgan_hash_smiles(sorted lists)', lambda: {k: sorted(v) for k, v in m.morgan_hash_smiles(1, 2).items()})
     add('morgan_smiles_hash', lambda: m.morgan_smiles_hash(1, 2))
+    add('morgan_smiles_hash(as set of items)', lambda: {(k, tuple(sorted(v))) for k, v in m.morgan_smiles_hash(1, 2).items()})
     # substructure match LISTS, order included
     for i, (sma, q) in enumerate(env['queries']):
-        if q is None:
+        if q is None or (n > 20 and i % 2 != n % 2):      # bigger molecules see half of the library
             continue
         add(f'match:{sma}', lambda q=q: list(itertools.islice(q.get_mapping(m), 120)))
         if i % 4 == 0:
@@ -387,7 +388,7 @@ def worker(spec_path, out_path):
         first = observe_reads(m, env)
         ops = observe_ops(m, env)                           # operations on copies: m itself must stay untouched
         for d in json.loads(ops.pop('__stale__')):
-            intra.append(dict(d, input=tag, variant='fresh copy after the edit' if d['observable'].startswith('edit') else 'str() read first on a fresh copy'))
+            intra.append(dict(d, input=tag, variant='fresh copy after the edit' if d['observable'].startswith('edit') else 'that attribute read first on a fresh copy'))
         second = observe_reads(m, env, 'backward')          # every cached value is now read from the cache
         compare_variants(tag, first, second, 'second call (cached, after operations on copies)', intra)
         if idx % 3 == 1 or tag.startswith('hand'):
@@ -505,7 +506,7 @@ def build_spec(ck):
     quick = ck.tier == 'quick'
     rng = random.Random(f'{ck.seed}:c19')
     mols = [('hand:' + s, s) for s in HAND]
-    pool = corpus.sample(corpus.lipo(), 30 if quick else 600, ck.seed, 'c19')
+    pool = corpus.sample(corpus.lipo(), 24 if quick else 500, ck.seed, 'c19')
     for s in pool:
         mols.append(('corpus:' + s, s))
     # element-symbol rich generated inputs (str-keyed tables: symbols, brutto, organic_set)
@@ -632,7 +633,7 @@ def differential(ck, spec, results, label=''):
             smi = smi_of.get(d['input'], d['input'])
             vkey = {'second call (cached, after operations on copies)': 'cached', 'second call (cached)': 'cached', 'after flush_cache': 'flushed',
                     'after flush_cache (read in reverse order)': 'flushed', 'copy() (read in shuffled order)': 'copy',
-                    'copy()': 'copy', 're-parsed object': 'reparsed', 'ops on copy()': 'copy-ops', 'fresh copy after the edit': 'stale', 'str() read first on a fresh copy': 'first-read'}.get(d['variant'], d['variant'])
+                    'copy()': 'copy', 're-parsed object': 'reparsed', 'ops on copy()': 'copy-ops', 'fresh copy after the edit': 'stale', 'that attribute read first on a fresh copy': 'first-read'}.get(d['variant'], d['variant'])
             ck.counterexample(f'{vkey}:{family(d["observable"])}', f'{d["observable"]} of {smi!r}: first call differs from {d["variant"]}',
                               {'input': smi, 'observable': d['observable'], 'variant': d['variant'], 'PYTHONHASHSEED': seed},
                               d['other'], d['first'], 'first (uncached) evaluation of the same object',
@@ -779,7 +780,7 @@ def correspondence(ck, spec, results):
             ck.count('model inputs on which the processes disagree')
     mc, mm = memo_cases(ck, rng)
     ok1, failing1, log1 = coqcases.run_cases('c19', 'PyBase', cases, extra=EXTRA, shard=60)
-    ok2, failing2, log2 = coqcases.run_cases('c19m', 'Determinism', mc, extra='Import ListNotations.\nOpen Scope list_scope.\nOpen Scope Z_scope.' + MEMO_EXTRA.replace('Mutate S', 'Mutate S'), shard=400)
+    ok2, failing2, log2 = coqcases.run_cases('c19m', 'Determinism', mc, extra='Import ListNotations.\nOpen Scope list_scope.\nOpen Scope Z_scope.' + MEMO_EXTRA, shard=400)
     ck.extra['correspondence_cases'] = len(cases) + len(mc)
     good1 = ok1 and not failing1
     good2 = ok2 and not failing2
@@ -878,7 +879,7 @@ def run(ck):
     # quick: four seeds, one process each (a process-dependent result, e.g. address-based hashing, also shows between them);
     # thorough: more seeds and a second process under seed 0 to tell `process` from `seed`
     seeds = [0, 1, 2, rng.randrange(3, 2 ** 32)] if ck.tier == 'quick' else \
-        [0, 1, 2] + [rng.randrange(3, 2 ** 32) for _ in range(3)] + [0]
+        [0, 1, 2] + [rng.randrange(3, 2 ** 32) for _ in range(2)] + [0]
     results = run_workers(ck, spec, seeds)
     differential(ck, spec, results)
     tied = correspondence(ck, spec, results)
